@@ -283,7 +283,8 @@ def fragmentsNeeded (R X : List Nat) : Option (List Nat) :=
   let first : Option (Nat × Nat) :=
     match T.failPattern R, R with
     | .d1p0, r :: _ =>
-      let md := T.missingData X
+      -- `fragments_needed_one_data_local`: the excluded data plus the fragment itself count as missing
+      let md := T.missingData X ++ [r]
       let mp := T.missingParity X
       match T.connectedParity r (some mp) md with
       | none => none
